@@ -10,8 +10,10 @@ import (
 	"net/http"
 	"net/http/httptest"
 	"net/url"
+	"os"
 	"path/filepath"
 	"sort"
+	"strconv"
 	"strings"
 	"testing"
 	"time"
@@ -214,7 +216,6 @@ func c18BuildRequest(path string, b c18Base, over map[string]string) *http.Reque
 	return req
 }
 
-
 func c18ExtractValue(body []byte) (string, bool) {
 	i := bytes.Index(body, []byte(`id="login_destination_input"`))
 	if i < 0 {
@@ -383,39 +384,49 @@ func TestVerif_C18(t *testing.T) {
 			c18AdminSweep(res, admin, "nothing (the admin request itself is hostile)", p, p)
 		}
 	}
-	for _, route := range routes {
-		if strings.HasPrefix(route.Path, "/static/") || strings.HasPrefix(route.Path, "/custom_static/") {
-			continue
+	genericSweep := func() {
+		for _, route := range routes {
+			if strings.HasPrefix(route.Path, "/static/") || strings.HasPrefix(route.Path, "/custom_static/") {
+				continue
+			}
+			if c18Expired() {
+				res.bump("budget_skipped:generic-routes")
+				continue
+			}
+			for _, c := range creds {
+				for pi, p := range payloads {
+					for _, mode := range []string{"query", "post", "path"} {
+						if !verifThorough() && c.name == "pwonly" && pi%2 == 1 {
+							continue
+						}
+						probe(route, mode, c.name, c.cookie, p)
+					}
+				}
+			}
 		}
-		for _, c := range creds {
-			for pi, p := range payloads {
-				for _, mode := range []string{"query", "post", "path"} {
-					if !verifThorough() && c.name == "pwonly" && pi%2 == 1 {
+		// the authenticated user's NAME is request-controlled text too (it was typed into a login form or
+		// came from a federated provider): sessions of users whose names are payloads visit every route
+		for pi, p := range payloads[:4] {
+			for _, level := range []int{AuthTypePassword | AuthTypeU2F, AuthTypePassword} {
+				c := env.cookie(p, level)
+				for _, route := range routes {
+					if strings.HasPrefix(route.Path, "/static/") || strings.HasPrefix(route.Path, "/custom_static/") || c18Expired() {
 						continue
 					}
-					probe(route, mode, c.name, c.cookie, p)
+					probe(route, "plain", fmt.Sprintf("payload-user-%d-level-%d", pi, level), c, p)
+					if level&AuthTypeU2F != 0 {
+						probe(route, "post", fmt.Sprintf("payload-user-%d-level-%d", pi, level), c, p)
+					}
 				}
 			}
 		}
-	}
-	// the authenticated user's NAME is request-controlled text too (it was typed into a login form or
-	// came from a federated provider): sessions of users whose names are payloads visit every route
-	for pi, p := range payloads[:4] {
-		for _, level := range []int{AuthTypePassword | AuthTypeU2F, AuthTypePassword} {
-			c := env.cookie(p, level)
-			for _, route := range routes {
-				if strings.HasPrefix(route.Path, "/static/") || strings.HasPrefix(route.Path, "/custom_static/") {
-					continue
-				}
-				probe(route, "plain", fmt.Sprintf("payload-user-%d-level-%d", pi, level), c, p)
-				if level&AuthTypeU2F != 0 {
-					probe(route, "post", fmt.Sprintf("payload-user-%d-level-%d", pi, level), c, p)
-				}
-			}
-		}
-	}
 
-	c18AdminSweep(res, admin, "the generic sweep of the service port", "", "")
+		c18AdminSweep(res, admin, "the generic sweep of the service port", "", "")
+	}
+	// a budgeted (escalated) run: the dictionary probes and the focus stage come first
+	if !c18Budgeted() {
+		genericSweep()
+	}
 	// ---- dictionary-driven probes: per route, start from a request that gets as far as the route lets it
 	// today, then (a) replace/add ONE harvested parameter at a time by a payload, for every credential kind,
 	// GET and POST; (b) for the credential kinds on which the base request succeeds, additionally set every
@@ -485,7 +496,7 @@ func TestVerif_C18(t *testing.T) {
 		u2fTokenManagementPath:  {{name: "u2f-manage", method: "POST", form: form("username", "alice", "index", "0", "name", "key", "action", "Update")}},
 		totpTokenManagementPath: {{name: "totp-manage", method: "POST", form: form("username", "alice", "index", "0", "name", "key", "action", "Update")}},
 		paths.SendAuthDocument:  {{name: "send-auth-document", method: "GET", form: form("port", "12345")}, {name: "send-auth-document", method: "POST", form: form("port", "12345")}},
-		bootstrapOtpAuthPath: {{name: "bootstrap-otp", method: "POST", creds: []string{"pwonly"}, form: func() url.Values { return form("OTP", otpFor("alice"))() }}},
+		bootstrapOtpAuthPath:    {{name: "bootstrap-otp", method: "POST", creds: []string{"pwonly"}, form: func() url.Values { return form("OTP", otpFor("alice"))() }}},
 		certgenPath: {{name: "certgen-x509", method: "POST", suffix: "alice", file: "pubkeyfile", creds: []string{"user"}, form: form("type", "x509", "pubkeyfile", keys.pemPub)},
 			{name: "certgen-ssh", method: "POST", suffix: "alice", file: "pubkeyfile", creds: []string{"user"}, form: form("type", "ssh", "pubkeyfile", keys.sshPub)}},
 	}
@@ -555,10 +566,97 @@ func TestVerif_C18(t *testing.T) {
 		}
 		return rr.Code
 	}
+	// ---- focus stage: the thorough volume (all payloads bare and wrapped, every credential kind, every harvested
+	// parameter) on the routes that reach a suspect function, nearest first, within a time budget
+	// (only while no canary has fired: the stage exists to find an input for a broken obligation; in a budgeted
+	// = escalated run it comes before the dictionary probes and may use a third of the budget)
+	focusStage := func() {
+		if len(focus) > 0 && (!verifThorough() || c18Budgeted()) && len(res.Hits) == 0 {
+			focusStart := time.Now()
+			budget := 60 * time.Second
+			if n, err := strconv.Atoi(os.Getenv("VERIF_C18_BUDGET_S")); err == nil && n > 0 {
+				budget = time.Duration(n) * time.Second / 3
+			}
+			var focused []string
+			allBare := append(c18BasePayloads(), c18UnquotedPayloads()...)
+			wrapIn := append(c18UnquotedPayloads(), c18BasePayloads()[:4]...)
+		focusLoop:
+			for _, fc := range focus {
+				route := fc.route
+				if strings.HasPrefix(route.Path, "/static/") || strings.HasPrefix(route.Path, "/custom_static/") {
+					continue
+				}
+				focused = append(focused, fmt.Sprintf("%s (distance %d to %s)", route.Path, fc.depth, fc.why))
+				hr := hv[route.Handler]
+				bs := bases[route.Path]
+				if len(bs) == 0 {
+					bs = []c18Base{{name: "bare", method: "GET"}, {name: "bare", method: "POST"}}
+				}
+				for _, b := range bs {
+					var params []string
+					seenP := map[string]bool{}
+					for _, it := range hr.Params {
+						if !seenP[it.Name] {
+							seenP[it.Name] = true
+							params = append(params, it.Name)
+						}
+					}
+					if b.form != nil {
+						var baseKeys []string
+						for k := range b.form() {
+							baseKeys = append(baseKeys, k)
+						}
+						sort.Strings(baseKeys)
+						for _, k := range baseKeys {
+							if !seenP[k] {
+								seenP[k] = true
+								params = append(params, k)
+							}
+						}
+					}
+					var order []string
+					for _, c := range hcreds {
+						order = append(order, c.name)
+					}
+					if b.creds != nil {
+						order = b.creds
+					}
+					for _, cn := range order {
+						for _, pm := range params {
+							if time.Since(focusStart) > budget {
+								res.bump("focus_budget_exhausted")
+								break focusLoop
+							}
+							for _, pl := range allBare {
+								res.bump("focused_probes")
+								hsend(route, b, cn, c18Mode{}, pm, pl)
+							}
+							for _, pl := range wrapIn {
+								for _, w := range c18Wrappers(pl) {
+									wrapperOf[w.text] = w.wrapper
+									res.bump("focused_probes")
+									hsend(route, b, cn, c18Mode{}, pm, w.text)
+								}
+							}
+						}
+					}
+				}
+			}
+			res.Extra["focused_routes"] = focused
+			res.Extra["focus_stage_ms"] = time.Since(focusStart).Milliseconds()
+		}
+	}
+	if c18Budgeted() {
+		focusStage()
+	}
 	routeTimes := map[string]string{}
 	var wrapMs int64
 	for _, route := range routes {
 		if strings.HasPrefix(route.Path, "/static/") || strings.HasPrefix(route.Path, "/custom_static/") {
+			continue
+		}
+		if c18Expired() {
+			res.bump("budget_skipped:dictionary-routes")
 			continue
 		}
 		hr := hv[route.Handler]
@@ -687,79 +785,10 @@ func TestVerif_C18(t *testing.T) {
 		routeTimes[route.Path] = fmt.Sprintf("%d probes, %d ms", res.counts["harvest_probes"]-probesBefore, time.Since(routeStart).Milliseconds())
 	}
 	res.Extra["harvest_route_cost"] = routeTimes
-	// ---- focus stage: the thorough volume (all payloads bare and wrapped, every credential kind, every harvested
-	// parameter) on the routes that reach a suspect function, nearest first, within a time budget
-	// (only while no canary has fired: the stage exists to find an input for a broken obligation)
-	if len(focus) > 0 && !verifThorough() && len(res.Hits) == 0 {
-		focusStart := time.Now()
-		budget := 60 * time.Second
-		var focused []string
-		allBare := append(c18BasePayloads(), c18UnquotedPayloads()...)
-		wrapIn := append(c18UnquotedPayloads(), c18BasePayloads()[:4]...)
-	focusLoop:
-		for _, fc := range focus {
-			route := fc.route
-			if strings.HasPrefix(route.Path, "/static/") || strings.HasPrefix(route.Path, "/custom_static/") {
-				continue
-			}
-			focused = append(focused, fmt.Sprintf("%s (distance %d to %s)", route.Path, fc.depth, fc.why))
-			hr := hv[route.Handler]
-			bs := bases[route.Path]
-			if len(bs) == 0 {
-				bs = []c18Base{{name: "bare", method: "GET"}, {name: "bare", method: "POST"}}
-			}
-			for _, b := range bs {
-				var params []string
-				seenP := map[string]bool{}
-				for _, it := range hr.Params {
-					if !seenP[it.Name] {
-						seenP[it.Name] = true
-						params = append(params, it.Name)
-					}
-				}
-				if b.form != nil {
-					var baseKeys []string
-					for k := range b.form() {
-						baseKeys = append(baseKeys, k)
-					}
-					sort.Strings(baseKeys)
-					for _, k := range baseKeys {
-						if !seenP[k] {
-							seenP[k] = true
-							params = append(params, k)
-						}
-					}
-				}
-				var order []string
-				for _, c := range hcreds {
-					order = append(order, c.name)
-				}
-				if b.creds != nil {
-					order = b.creds
-				}
-				for _, cn := range order {
-					for _, pm := range params {
-						if time.Since(focusStart) > budget {
-							res.bump("focus_budget_exhausted")
-							break focusLoop
-						}
-						for _, pl := range allBare {
-							res.bump("focused_probes")
-							hsend(route, b, cn, c18Mode{}, pm, pl)
-						}
-						for _, pl := range wrapIn {
-							for _, w := range c18Wrappers(pl) {
-								wrapperOf[w.text] = w.wrapper
-								res.bump("focused_probes")
-								hsend(route, b, cn, c18Mode{}, pm, w.text)
-							}
-						}
-					}
-				}
-			}
-		}
-		res.Extra["focused_routes"] = focused
-		res.Extra["focus_stage_ms"] = time.Since(focusStart).Milliseconds()
+	if !c18Budgeted() {
+		focusStage()
+	} else {
+		genericSweep()
 	}
 	res.Extra["wrapped_probes_ms"] = wrapMs
 	c18AdminSweep(res, admin, "the dictionary-driven probes of the service port", "", "")
